@@ -101,7 +101,11 @@ pub fn run_session(case: &Value) -> Value {
     let mut anomalies = vec![];
     for c in case["cmds"].as_array().unwrap_or(&vec![]) {
         let kind = c["k"].as_str().unwrap_or("");
-        let text = render::command_text(c);
+        // a command may carry the text to type (a spelling variant of its rendering)
+        let text = match c["text"].as_str() {
+            Some(t) => t.to_string(),
+            None => render::command_text(c),
+        };
         let mut evs: Vec<Ev> = vec![];
         let mut ints = 0;
         let mut intpre = json!([]);
